@@ -166,6 +166,15 @@ func (w *world) extend(t *rapid.T, k int, noVote bool) {
 	}
 }
 
+// drawFee: ordinary fees with ties, and now and then fees from the top of the uint64 range (a fee is any uint64; arithmetic
+// on it must not wrap)
+func drawFee(t *rapid.T) uint64 {
+	if rapid.IntRange(0, 5).Draw(t, "hugeFee") == 0 {
+		return rapid.SampledFrom([]uint64{1<<64 - 1, 1 << 63, 1<<63 - 1, (1<<64-1)/1000 + 1, (1<<64-1)/1000 - 1, 1 << 54, 1 << 40}).Draw(t, "feeHuge")
+	}
+	return rapid.SampledFrom([]uint64{100, 100, 500, 2000, 2001, 9000}).Draw(t, "fee")
+}
+
 type poolTx struct {
 	tx      *blockchain.Transaction
 	sender  int
@@ -182,7 +191,7 @@ func (w *world) fillPool(t *rapid.T) []poolTx {
 			failIdx = rapid.IntRange(0, cnt-1).Draw(t, "failIdx")
 		}
 		for i := 0; i < cnt; i++ {
-			tx := node.MakeTx(10+s, uint64(len(w.forged)*100+i), rapid.SampledFrom([]uint64{100, 100, 500, 2000, 2001, 9000}).Draw(t, "fee"), node.TxOK,
+			tx := node.MakeTx(10+s, uint64(len(w.forged)*100+i), drawFee(t), node.TxOK,
 				rapid.IntRange(0, 2).Draw(t, "txEvents"), rapid.SampledFrom([]int{0, 0, 20, 60, 200}).Draw(t, "pad"))
 			if !w.pool.Add(tx) {
 				continue
